@@ -109,6 +109,10 @@ HOSTILE += [  # parameter lists with every kind of parameter on its own commente
 HOSTILE += [  # '#' inside string literals in front of real comments
     "v = [  # c0\n    '#a',  # c1\n    '# b',  # c2\n]  # c3\nd = {'#k': '#v',  # c4\n     k: \"# w\"}  # c5\nf('#', x)  # c6",
 ]
+HOSTILE += [  # separator-first layouts: the comma / operator opens the line, the element's comment closes the line before it
+    "x = [a  # c0\n    , b  # c1\n    , c  # c2\n]  # c3\nf(p  # c4\n  , q  # c5\n  , k=r  # c6\n  )  # c7",
+    "d = {a: 1  # c0\n   , b: 2  # c1\n   , **c  # c2\n   }  # c3\ny = (p  # c4\n     + q  # c5\n     + r)  # c6",
+]
 for _p in HOSTILE:
     ast.parse(_p)
 PROGS = COMMENTED + [PROGRAMS[i] for i in (11, 20, 21, 22, 23, 24, 25, 26, 27, 28, 37, 38)] + HOSTILE
